@@ -1,7 +1,775 @@
-//! C39: not implemented yet.
+//! C39: the memory budget is a hard limit (MemoryBudget under real threads).
+//!
+//! Barrier-synchronised rounds on a fresh `MemoryBudget`: before each step the main thread
+//! (alone, quiescent) tops the Shared pool up/down so that the headroom `limit - total_used`
+//! is smaller than what the threads are about to request; then all threads run their 1-3
+//! allocate/release calls concurrently (same pool, different pools, mixed), the library's
+//! yield point between the limit check and the CAS is perturbed by the hook registered here;
+//! then a barrier, and ONLY THERE (quiescent) the oracle is evaluated:
+//!   * total_le_limit : total_used() <= total_limit()
+//!   * pool_ledger    : stats().<pool>_used == sum(successful allocate) - sum(release), from a
+//!                      harness-side ledger fed with the call results
+//!   * zero_after_release : after every holder released everything, all counters are 0.
+//! Mid-flight sums are never judged (they are legitimately transient).
+//! Directed rounds: two threads, the hook parks thread 0 at "budget.check_cas" until thread
+//! 1's allocate (other pool / same pool as control) has returned: the exact witness of the
+//! cross-pool check-then-act window.
+//! A small sequential probe checks that an absurdly large request fails with Err (the module
+//! documents "allocations that would exceed the budget fail immediately").
+use crate::report::{catch, panic_site, Ctx};
+use crate::rng::{fnv, Rng};
 use crate::Args;
+use parking_lot::Mutex;
+use serde_json::{json, Value};
+use std::cell::RefCell;
+use std::collections::HashSet;
+use std::sync::atomic::{AtomicBool, AtomicI64, AtomicU32, AtomicU64, Ordering};
+use std::sync::mpsc;
+use std::sync::{Arc, Barrier};
+use std::time::{Duration, Instant};
+use turdb::memory::{MemoryBudget, Pool};
 
-pub fn run(_a: &Args) -> i32 {
-    println!("INCONCLUSIVE property=C39 reason=check not implemented yet");
-    2
+const MIRI: bool = cfg!(miri);
+const POOLS: [Pool; 5] = [Pool::Cache, Pool::Query, Pool::Recovery, Pool::Schema, Pool::Shared];
+
+fn pool_idx(p: Pool) -> usize {
+    match p {
+        Pool::Cache => 0,
+        Pool::Query => 1,
+        Pool::Recovery => 2,
+        Pool::Schema => 3,
+        Pool::Shared => 4,
+    }
+}
+
+const EV_HOOK: u32 = 0;
+const EV_CALL_ALLOC: u32 = 1;
+const EV_ALLOC_OK: u32 = 2;
+const EV_ALLOC_ERR: u32 = 3;
+const EV_RELEASE: u32 = 4;
+const EV_OTHER_HOOK: u32 = 5;
+
+fn ev(thread: usize, kind: u32, pool: usize) -> u32 {
+    ((thread as u32) << 16) | (kind << 8) | pool as u32
+}
+fn ev_fmt(e: u32) -> String {
+    let k = match (e >> 8) & 0xFF {
+        EV_HOOK => "yield:budget.check_cas (limit check passed, CAS not yet done)",
+        EV_CALL_ALLOC => "call allocate",
+        EV_ALLOC_OK => "allocate returned Ok",
+        EV_ALLOC_ERR => "allocate returned Err",
+        EV_RELEASE => "release returned",
+        _ => "yield:other",
+    };
+    format!("T{} {} pool={}", e >> 16, k, POOLS[(e & 0xFF) as usize % 5].name())
+}
+
+#[derive(Clone, Debug)]
+enum Call {
+    Alloc(usize, usize), // pool index, bytes
+    Release,             // release one of the thread's own holdings (if any)
+    ReleaseAll,
+}
+
+#[derive(Clone, Debug)]
+struct Cfg {
+    nthreads: usize,
+    steps: usize,
+    limit: usize,
+    mode: u8, // 0 every thread its own pool, 1 all in one pool, 2 random pool per call, 3 two pools
+    size_lo: usize,
+    size_hi: usize,
+    p_release: u64,
+    w: [u64; 4],
+    directed: u8, // 0 random; 1 directed cross-pool; 2 directed same-pool (control)
+}
+
+impl Cfg {
+    fn to_json(&self) -> Value {
+        json!({"threads": self.nthreads, "steps": self.steps, "limit": self.limit, "pool_mode": (["own_pool_per_thread", "one_pool", "random_pool_per_call", "two_pools"][self.mode as usize]),
+               "size_range": [self.size_lo, self.size_hi], "release_pct": self.p_release, "hook_weights_nothing_yield_spin_sleep": self.w, "directed": self.directed})
+    }
+    fn structural_hash(&self) -> u64 {
+        fnv(format!("{}|{}|{}|{}|{}|{}|{}|{:?}|{}", self.nthreads, self.steps, self.limit, self.mode, self.size_lo, self.size_hi, self.p_release, self.w, self.directed).as_bytes())
+    }
+}
+
+fn gen_cfg(rng: &mut Rng) -> Cfg {
+    if MIRI {
+        return Cfg {
+            nthreads: 2 + rng.below(2) as usize,
+            steps: 3,
+            limit: 4 << 20,
+            mode: *rng.pick(&[0u8, 2, 3]),
+            size_lo: 100,
+            size_hi: 5000,
+            p_release: 20,
+            w: [50, 50, 0, 0],
+            directed: 0,
+        };
+    }
+    let (size_lo, size_hi) = match rng.below(6) {
+        0 => (1, 64),
+        1 | 2 => (64, 8 * 1024),
+        3 => (4096, 4096),
+        4 => (1024, 100 * 1024),
+        _ => (16 * 1024, 512 * 1024),
+    };
+    Cfg {
+        nthreads: match rng.below(8) {
+            0 => 2,
+            1 => 3,
+            2 | 3 => 4,
+            _ => 5 + rng.below(4) as usize,
+        },
+        steps: rng.usize(4, 12),
+        limit: (4 << 20) + rng.below(12 << 20) as usize,
+        mode: *rng.pick(&[0u8, 0, 1, 2, 2, 3]),
+        size_lo,
+        size_hi,
+        p_release: *rng.pick(&[0u64, 15, 35]),
+        w: match rng.below(5) {
+            0 => [100, 0, 0, 0],
+            1 => [80, 12, 7, 1],
+            2 => [60, 20, 17, 3],
+            3 => [40, 30, 25, 5],
+            _ => [70, 30, 0, 0],
+        },
+        directed: 0,
+    }
+}
+
+struct Round {
+    cfg: Cfg,
+    budget: MemoryBudget,
+    ledger: [AtomicI64; 5],
+    barrier: Barrier,
+    plan: Mutex<Vec<Vec<Call>>>,
+    log: Mutex<Vec<u32>>,
+    in_alloc: AtomicU32,
+    overlap: AtomicU64,
+    step_succ_pools: AtomicU32,
+    step_succ: AtomicU64,
+    hook_actions: [AtomicU64; 4],
+    panics: Mutex<Vec<String>>,
+    t0_parked: AtomicBool,
+    t1_done: AtomicBool,
+    window_reached: AtomicBool,
+    calls: AtomicU64,
+}
+
+impl Round {
+    fn push(&self, e: u32) {
+        self.log.lock().push(e);
+    }
+}
+
+struct Tls {
+    idx: usize,
+    rng: Rng,
+    pool: usize,
+    round: Arc<Round>,
+    parked_once: bool,
+}
+thread_local! {
+    static TLS: RefCell<Option<Tls>> = RefCell::new(None);
+}
+
+fn spin_for(us: u64) {
+    if MIRI {
+        std::thread::yield_now();
+        return;
+    }
+    let t0 = Instant::now();
+    let d = Duration::from_micros(us);
+    while t0.elapsed() < d {
+        std::hint::spin_loop();
+    }
+}
+
+fn wait_flag(flag: &AtomicBool, max: Duration) -> bool {
+    let t0 = Instant::now();
+    let mut it = 0u64;
+    loop {
+        if flag.load(Ordering::SeqCst) {
+            return true;
+        }
+        it += 1;
+        if MIRI {
+            if it > 400 {
+                return false;
+            }
+        } else if it % 64 == 0 && t0.elapsed() > max {
+            return false;
+        }
+        std::thread::yield_now();
+    }
+}
+
+fn hook(name: &'static str) {
+    TLS.with(|cell| {
+        let mut b = cell.borrow_mut();
+        let t = match b.as_mut() {
+            Some(t) => t,
+            None => return,
+        };
+        let r = t.round.clone();
+        let kind = if name == "budget.check_cas" { EV_HOOK } else { EV_OTHER_HOOK };
+        r.push(ev(t.idx, kind, t.pool));
+        if r.in_alloc.load(Ordering::Relaxed) >= 2 {
+            r.overlap.fetch_add(1, Ordering::Relaxed);
+        }
+        if r.cfg.directed != 0 {
+            if t.idx == 0 && kind == EV_HOOK && !t.parked_once {
+                t.parked_once = true;
+                r.t0_parked.store(true, Ordering::SeqCst);
+                if wait_flag(&r.t1_done, Duration::from_millis(400)) {
+                    r.window_reached.store(true, Ordering::SeqCst);
+                }
+            }
+            return;
+        }
+        let w = &r.cfg.w;
+        let total = w[0] + w[1] + w[2] + w[3];
+        let mut x = t.rng.below(total);
+        let mut act = 0;
+        for (i, wi) in w.iter().enumerate() {
+            if x < *wi {
+                act = i;
+                break;
+            }
+            x -= *wi;
+        }
+        if MIRI && act > 1 {
+            act = 1;
+        }
+        r.hook_actions[act].fetch_add(1, Ordering::Relaxed);
+        match act {
+            0 => {}
+            1 => std::thread::yield_now(),
+            2 => {
+                let us = 1 + t.rng.below(50);
+                spin_for(us)
+            }
+            _ => {
+                let us = 1 + t.rng.below(200);
+                std::thread::sleep(Duration::from_micros(us))
+            }
+        }
+    });
+}
+
+fn set_pool(p: usize) {
+    TLS.with(|t| {
+        if let Some(t) = t.borrow_mut().as_mut() {
+            t.pool = p;
+        }
+    });
+}
+
+fn worker(r: &Arc<Round>, idx: usize, tseed: u64) {
+    let mut rng = Rng::new(tseed);
+    let mut holdings: Vec<(usize, usize)> = vec![];
+    for _step in 0..r.cfg.steps + 1 {
+        r.barrier.wait(); // A: plan published, budget topped up
+        let calls = r.plan.lock()[idx].clone();
+        if r.cfg.directed != 0 && idx == 1 {
+            wait_flag(&r.t0_parked, Duration::from_millis(400));
+        }
+        for c in calls {
+            r.calls.fetch_add(1, Ordering::Relaxed);
+            match c {
+                Call::Alloc(pi, bytes) => {
+                    set_pool(pi);
+                    r.push(ev(idx, EV_CALL_ALLOC, pi));
+                    r.in_alloc.fetch_add(1, Ordering::Relaxed);
+                    let res = catch(|| r.budget.allocate(POOLS[pi], bytes).is_ok());
+                    r.in_alloc.fetch_sub(1, Ordering::Relaxed);
+                    match res {
+                        Ok(true) => {
+                            r.ledger[pi].fetch_add(bytes as i64, Ordering::Relaxed);
+                            r.step_succ_pools.fetch_or(1 << pi, Ordering::Relaxed);
+                            r.step_succ.fetch_add(1, Ordering::Relaxed);
+                            holdings.push((pi, bytes));
+                            r.push(ev(idx, EV_ALLOC_OK, pi));
+                        }
+                        Ok(false) => r.push(ev(idx, EV_ALLOC_ERR, pi)),
+                        Err(p) => r.panics.lock().push(p),
+                    }
+                    if r.cfg.directed != 0 && idx == 1 {
+                        r.t1_done.store(true, Ordering::SeqCst);
+                    }
+                }
+                Call::Release => {
+                    if !holdings.is_empty() {
+                        let k = rng.below(holdings.len() as u64) as usize;
+                        let (pi, bytes) = holdings.swap_remove(k);
+                        match catch(|| r.budget.release(POOLS[pi], bytes)) {
+                            Ok(()) => {
+                                r.ledger[pi].fetch_sub(bytes as i64, Ordering::Relaxed);
+                                r.push(ev(idx, EV_RELEASE, pi));
+                            }
+                            Err(p) => r.panics.lock().push(p),
+                        }
+                    }
+                }
+                Call::ReleaseAll => {
+                    for (pi, bytes) in holdings.drain(..) {
+                        match catch(|| r.budget.release(POOLS[pi], bytes)) {
+                            Ok(()) => {
+                                r.ledger[pi].fetch_sub(bytes as i64, Ordering::Relaxed);
+                            }
+                            Err(p) => r.panics.lock().push(p),
+                        }
+                    }
+                }
+            }
+        }
+        r.barrier.wait(); // B: quiescent; main checks
+    }
+}
+
+struct Viol {
+    assertion: &'static str,
+    sig: String,
+    detail: Value,
+}
+
+struct RoundResult {
+    round_no: u64,
+    cfg: Cfg,
+    viols: Vec<Viol>,
+    panics: Vec<String>,
+    fingerprint: u64,
+    hook_events: u64,
+    overlap: u64,
+    calls: u64,
+    succ: u64,
+    fail: u64,
+    quiescent_checks: u64,
+    steps_over_limit: u64,
+    hook_actions: [u64; 4],
+    window_reached: bool,
+    events: Vec<String>,
+    wall_ms: f64,
+}
+
+fn pool_used(b: &MemoryBudget) -> [usize; 5] {
+    let s = b.stats();
+    [s.cache_used, s.query_used, s.recovery_used, s.schema_used, s.shared_used]
+}
+
+fn run_round(round_no: u64, rseed: u64, cfg: &Cfg, progress: &AtomicU64) -> RoundResult {
+    let t0 = Instant::now();
+    let n = cfg.nthreads;
+    let mut rng = Rng::new(rseed);
+    let round = Arc::new(Round {
+        cfg: cfg.clone(),
+        budget: MemoryBudget::with_limit(cfg.limit),
+        ledger: [AtomicI64::new(0), AtomicI64::new(0), AtomicI64::new(0), AtomicI64::new(0), AtomicI64::new(0)],
+        barrier: Barrier::new(n + 1),
+        plan: Mutex::new(vec![vec![]; n]),
+        log: Mutex::new(Vec::with_capacity(256)),
+        in_alloc: AtomicU32::new(0),
+        overlap: AtomicU64::new(0),
+        step_succ_pools: AtomicU32::new(0),
+        step_succ: AtomicU64::new(0),
+        hook_actions: [AtomicU64::new(0), AtomicU64::new(0), AtomicU64::new(0), AtomicU64::new(0)],
+        panics: Mutex::new(vec![]),
+        t0_parked: AtomicBool::new(false),
+        t1_done: AtomicBool::new(false),
+        window_reached: AtomicBool::new(false),
+        calls: AtomicU64::new(0),
+    });
+    let limit = round.budget.total_limit();
+    let mut handles = vec![];
+    for i in 0..n {
+        let r = round.clone();
+        let tseed = rseed ^ (i as u64 + 1).wrapping_mul(0xA24BAED4963EE407);
+        handles.push(
+            std::thread::Builder::new()
+                .stack_size(512 * 1024)
+                .spawn(move || {
+                    TLS.with(|t| *t.borrow_mut() = Some(Tls { idx: i, rng: Rng::new(tseed ^ 0x27d4eb2f), pool: 0, round: r.clone(), parked_once: false }));
+                    worker(&r, i, tseed);
+                    TLS.with(|t| *t.borrow_mut() = None);
+                })
+                .expect("spawn"),
+        );
+    }
+    let two_pools = [rng.below(5) as usize, rng.below(5) as usize];
+    let one_pool = rng.below(5) as usize;
+    let mut viols: Vec<Viol> = vec![];
+    let mut filler: usize = 0; // bytes the main thread holds in Pool::Shared
+    let mut quiescent_checks = 0u64;
+    let mut steps_over = 0u64;
+    let mut succ_total = 0u64;
+    let mut alloc_calls = 0u64;
+    for step in 0..cfg.steps + 1 {
+        let last = step == cfg.steps;
+        // ---- quiescent: publish the plan and set the headroom
+        let mut plan: Vec<Vec<Call>> = vec![vec![]; n];
+        let mut requested = 0usize;
+        let mut sizes = vec![];
+        if last {
+            for p in plan.iter_mut() {
+                p.push(Call::ReleaseAll);
+            }
+        } else if cfg.directed != 0 {
+            let s = rng.usize(64, 64 * 1024);
+            let p0 = rng.below(5) as usize;
+            let p1 = if cfg.directed == 1 { (p0 + 1 + rng.below(4) as usize) % 5 } else { p0 };
+            plan[0].push(Call::Alloc(p0, s));
+            plan[1].push(Call::Alloc(p1, s));
+            alloc_calls += 2;
+            requested = 2 * s;
+            sizes.push(s);
+        } else {
+            for (i, p) in plan.iter_mut().enumerate() {
+                let k = 1 + rng.below(3) as usize;
+                for _ in 0..k {
+                    if rng.below(100) < cfg.p_release && step > 0 {
+                        p.push(Call::Release);
+                    } else {
+                        let pi = match cfg.mode {
+                            0 => i % 5,
+                            1 => one_pool,
+                            2 => rng.below(5) as usize,
+                            _ => two_pools[rng.below(2) as usize],
+                        };
+                        let s = rng.usize(cfg.size_lo, cfg.size_hi);
+                        requested += s;
+                        sizes.push(s);
+                        alloc_calls += 1;
+                        p.push(Call::Alloc(pi, s));
+                    }
+                }
+            }
+        }
+        if !last {
+            let used = round.budget.total_used();
+            let headroom = if cfg.directed != 0 {
+                sizes[0] // exactly one of the two requests fits
+            } else {
+                match rng.below(10) {
+                    0 => 0,
+                    1 => requested + 1, // everything fits
+                    2 | 3 => *rng.pick(&sizes.iter().copied().chain(std::iter::once(1)).collect::<Vec<_>>()), // about one request fits
+                    _ => rng.below(requested as u64 + 1) as usize, // some fit
+                }
+            };
+            let target = limit.saturating_sub(headroom);
+            if target > used {
+                let add = target - used;
+                if let Ok(true) = catch(|| round.budget.allocate(Pool::Shared, add).is_ok()) {
+                    filler += add;
+                    round.ledger[4].fetch_add(add as i64, Ordering::Relaxed);
+                }
+            } else if used > target && filler > 0 {
+                let sub = (used - target).min(filler);
+                if catch(|| round.budget.release(Pool::Shared, sub)).is_ok() {
+                    filler -= sub;
+                    round.ledger[4].fetch_sub(sub as i64, Ordering::Relaxed);
+                }
+            }
+        }
+        let used_before = round.budget.total_used();
+        round.step_succ_pools.store(0, Ordering::Relaxed);
+        round.step_succ.store(0, Ordering::Relaxed);
+        let log_start = round.log.lock().len();
+        *round.plan.lock() = plan.clone();
+        round.barrier.wait(); // A
+        round.barrier.wait(); // B
+        progress.fetch_add(1, Ordering::Relaxed);
+        // ---- quiescent: judge
+        quiescent_checks += 1;
+        let total = round.budget.total_used();
+        let per = pool_used(&round.budget);
+        let mask = round.step_succ_pools.load(Ordering::Relaxed);
+        succ_total += round.step_succ.load(Ordering::Relaxed);
+        let step_events = || -> Vec<String> { round.log.lock()[log_start..].iter().take(60).map(|e| ev_fmt(*e)).collect() };
+        let plan_json = || -> Value {
+            json!(plan.iter().map(|cs| cs.iter().map(|c| match c {
+                Call::Alloc(p, b) => format!("allocate({}, {})", POOLS[*p].name(), b),
+                Call::Release => "release(one own holding)".to_string(),
+                Call::ReleaseAll => "release(all own holdings)".to_string(),
+            }).collect::<Vec<_>>()).collect::<Vec<_>>())
+        };
+        if total > limit && used_before <= limit {
+            steps_over += 1;
+            let cause = match mask.count_ones() {
+                0 => "no_successful_allocation_in_step",
+                1 => "concurrent_allocations_in_one_pool",
+                _ => "concurrent_allocations_in_different_pools",
+            };
+            let cause = if cfg.directed == 1 { "check_then_cas_window_across_pools" } else { cause };
+            viols.push(Viol {
+                assertion: "total_le_limit",
+                sig: format!("C39/total_le_limit/{}", cause),
+                detail: json!({"round": round_no, "round_seed": rseed, "step": step, "cfg": cfg.to_json(), "limit": limit, "total_used_before_step": used_before,
+                               "total_used_at_barrier": total, "over_by": total - limit, "pools_with_successful_allocations": POOLS.iter().enumerate().filter(|(i, _)| mask & (1 << i) != 0).map(|(_, p)| p.name()).collect::<Vec<_>>(),
+                               "plan_per_thread": plan_json(), "event_order": step_events()}),
+            });
+        }
+        for i in 0..5 {
+            let led = round.ledger[i].load(Ordering::Relaxed);
+            if per[i] as i64 != led {
+                viols.push(Viol {
+                    assertion: "pool_ledger",
+                    sig: format!("C39/pool_ledger/{}_used_differs_from_ledger", POOLS[i].name()),
+                    detail: json!({"round": round_no, "round_seed": rseed, "step": step, "cfg": cfg.to_json(), "pool": POOLS[i].name(), "pool_used": per[i], "ledger": led,
+                                   "plan_per_thread": plan_json(), "event_order": step_events()}),
+                });
+                // resynchronise so one discrepancy is reported once
+                round.ledger[i].store(per[i] as i64, Ordering::Relaxed);
+            }
+        }
+    }
+    for h in handles {
+        let _ = h.join();
+    }
+    // everything the threads held is released; release the filler, then all must be zero
+    if filler > 0 && catch(|| round.budget.release(Pool::Shared, filler)).is_ok() {
+        round.ledger[4].fetch_sub(filler as i64, Ordering::Relaxed);
+    }
+    let per = pool_used(&round.budget);
+    let total = round.budget.total_used();
+    quiescent_checks += 1;
+    // zero is demanded only if the ledger says zero (an earlier panic may have left the ledger open)
+    let ledger_zero = (0..5).all(|i| round.ledger[i].load(Ordering::Relaxed) == 0);
+    if ledger_zero && (total != 0 || per.iter().any(|x| *x != 0)) {
+        viols.push(Viol {
+            assertion: "zero_after_release",
+            sig: "C39/zero_after_release/nonzero_after_all_released".into(),
+            detail: json!({"round": round_no, "round_seed": rseed, "cfg": cfg.to_json(), "total_used": total, "per_pool": per}),
+        });
+    }
+    let log = round.log.lock().clone();
+    let mut fp = Vec::with_capacity(log.len());
+    let mut hook_events = 0;
+    for e in &log {
+        let k = (e >> 8) & 0xFF;
+        if k == EV_HOOK || k == EV_OTHER_HOOK {
+            hook_events += 1;
+            fp.push((e >> 16) as u8);
+            fp.push((e & 0xFF) as u8 | ((k as u8) << 4));
+        }
+    }
+    let panics = round.panics.lock().clone();
+    RoundResult {
+        round_no,
+        cfg: cfg.clone(),
+        viols,
+        panics,
+        fingerprint: fnv(&fp),
+        hook_events,
+        overlap: round.overlap.load(Ordering::Relaxed),
+        calls: round.calls.load(Ordering::Relaxed),
+        succ: succ_total,
+        fail: alloc_calls.saturating_sub(succ_total),
+        quiescent_checks,
+        steps_over_limit: steps_over,
+        hook_actions: [
+            round.hook_actions[0].load(Ordering::Relaxed),
+            round.hook_actions[1].load(Ordering::Relaxed),
+            round.hook_actions[2].load(Ordering::Relaxed),
+            round.hook_actions[3].load(Ordering::Relaxed),
+        ],
+        window_reached: round.window_reached.load(Ordering::SeqCst),
+        events: if cfg.directed != 0 { log.iter().map(|e| ev_fmt(*e)).collect() } else { vec![] },
+        wall_ms: t0.elapsed().as_secs_f64() * 1000.0,
+    }
+}
+
+/// sequential probe: requests that cannot possibly fit must come back as Err
+fn huge_probe(ctx: &mut Ctx, rng: &mut Rng) {
+    for case in 0..8u64 {
+        ctx.eval();
+        let b = MemoryBudget::with_limit(4 << 20);
+        let pre_pool = POOLS[rng.below(5) as usize];
+        let pre = if case % 2 == 0 { 0 } else { 1 + rng.below(100_000) as usize };
+        if pre > 0 {
+            let _ = b.allocate(pre_pool, pre);
+        }
+        let pool = if case < 4 { pre_pool } else { POOLS[rng.below(5) as usize] };
+        let req = match case % 4 {
+            0 | 1 => usize::MAX,
+            2 => usize::MAX - rng.below(1000) as usize,
+            _ => usize::MAX / 2 + 1 + rng.below(1000) as usize,
+        };
+        let before = pool_used(&b);
+        let kind = if req == usize::MAX { "usize::MAX" } else if req > usize::MAX / 2 + 2000 { "near usize::MAX" } else { "just above usize::MAX/2" };
+        match catch(|| b.allocate(pool, req).is_ok()) {
+            Ok(false) => {
+                if pool_used(&b) != before {
+                    ctx.violation("huge_request", "C39/huge_request/failed_allocate_changed_counters", json!({"prefill": pre, "request": kind}));
+                }
+                ctx.count("huge_probe_failed_cleanly", 1);
+            }
+            Ok(true) => {
+                ctx.violation("huge_request", "C39/huge_request/allocate_succeeded", json!({"prefill": pre, "prefill_pool": pre_pool.name(), "pool": pool.name(), "request": kind, "after": pool_used(&b), "limit": b.total_limit()}));
+            }
+            Err(p) => {
+                let cause = if p.contains("overflow") { "allocate_panicked_add_overflow".to_string() } else { format!("allocate_panicked@{}", panic_site(&p)) };
+                ctx.violation("huge_request", &format!("C39/huge_request/{}", cause), json!({"prefill": pre, "prefill_pool": pre_pool.name(), "pool": pool.name(), "request": kind, "panic": p}));
+            }
+        }
+    }
+}
+
+pub fn run(a: &Args) -> i32 {
+    let mut ctx = Ctx::new(
+        "C39",
+        &a.tier,
+        a.seed,
+        "exploration",
+        "barrier-synchronised rounds of 2-8 real threads on a fresh MemoryBudget (limit 4-16 MiB): before every step the headroom is set below the sum of the requests, threads then allocate/release in the same, different or random pools with the check->CAS yield point perturbed (nothing/yield/spin/sleep per-thread PRNG); oracle evaluated only at the barrier; plus directed 2-thread rounds parking one thread between check and CAS; distinct_nontrivial = distinct (round structure, schedule fingerprint) of rounds where the yield point was reached while >= 2 threads were inside allocate",
+    );
+    let quick = ctx.quick();
+    turdb::verif::set_yield_hook(Some(Arc::new(hook)));
+    let mut master = Rng::derive(a.seed, 39);
+    let (max_rounds, budget_s, lanes, ndirected): (u64, f64, usize, u64) = if MIRI {
+        (3, 1e8, 1, 2)
+    } else if quick {
+        (6000, 30.0, 4, 10)
+    } else {
+        (150_000, 400.0, 4, 100)
+    };
+    let deadline = Instant::now() + Duration::from_secs_f64(budget_s);
+
+    // harness watchdog: no barrier step completing for 60 s => inconclusive, not a verdict
+    let progress = Arc::new(AtomicU64::new(0));
+    if !MIRI {
+        let p = progress.clone();
+        std::thread::spawn(move || {
+            let mut last = (p.load(Ordering::Relaxed), Instant::now());
+            loop {
+                std::thread::sleep(Duration::from_secs(2));
+                let now = p.load(Ordering::Relaxed);
+                if now != last.0 {
+                    last = (now, Instant::now());
+                } else if last.1.elapsed() > Duration::from_secs(60) && now != u64::MAX {
+                    println!("INCONCLUSIVE property=C39 reason=harness watchdog: no barrier step completed for 60 s");
+                    std::process::exit(2);
+                }
+            }
+        });
+    }
+
+    if !MIRI {
+        huge_probe(&mut ctx, &mut master);
+    }
+
+    let mut fingerprints: HashSet<u64> = HashSet::new();
+    let mut trivial = 0u64;
+    let mut sampled = 0;
+    let mut sampled_v = 0;
+    let mut sampled_c = 0;
+    let mut round_ms_total = 0f64;
+    let mut absorb = |ctx: &mut Ctx, res: RoundResult| {
+        ctx.eval();
+        let directed = res.cfg.directed != 0;
+        ctx.count(match res.cfg.directed { 0 => "rounds_random", 1 => "rounds_directed_cross_pool", _ => "rounds_directed_same_pool_control" }, 1);
+        ctx.count("calls", res.calls);
+        round_ms_total += res.wall_ms;
+        ctx.count("allocate_ok", res.succ);
+        ctx.count("allocate_err", res.fail);
+        ctx.count("quiescent_checks", res.quiescent_checks);
+        ctx.count("steps_ending_over_limit", res.steps_over_limit);
+        ctx.count("yield_point_events", res.hook_events);
+        ctx.count("yield_points_with_overlap", res.overlap);
+        ctx.count("hook_nothing", res.hook_actions[0]);
+        ctx.count("hook_yield", res.hook_actions[1]);
+        ctx.count("hook_spin", res.hook_actions[2]);
+        ctx.count("hook_sleep", res.hook_actions[3]);
+        let nontrivial = if directed { res.window_reached } else { res.overlap > 0 };
+        if nontrivial {
+            fingerprints.insert(res.fingerprint);
+            ctx.nontrivial(res.cfg.structural_hash() ^ res.fingerprint.rotate_left(17));
+        } else {
+            trivial += 1;
+            if directed {
+                ctx.count("directed_window_not_reached", 1);
+            }
+        }
+        for p in &res.panics {
+            ctx.violation("no_panic", &format!("C39/no_panic/{}", panic_site(p)), json!({"round": res.round_no, "cfg": res.cfg.to_json(), "panic": p}));
+        }
+        if res.cfg.directed == 2 && res.steps_over_limit == 0 && res.window_reached {
+            ctx.count("directed_same_pool_control_held", 1);
+        }
+        for v in res.viols {
+            if sampled_v < 2 {
+                sampled_v += 1;
+                ctx.sample(json!({"kind": if directed {"directed round with violation"} else {"random round with violation"}, "sig": v.sig, "detail": v.detail}));
+            }
+            ctx.violation(v.assertion, &v.sig, v.detail);
+        }
+        if sampled < 2 && !directed && res.steps_over_limit == 0 {
+            sampled += 1;
+            ctx.sample(json!({"kind": "random round", "cfg": res.cfg.to_json(), "calls": res.calls, "allocate_ok": res.succ, "allocate_err": res.fail, "yield_point_events": res.hook_events,
+                              "yield_points_with_overlap": res.overlap, "schedule_fingerprint": format!("{:016x}", res.fingerprint), "wall_ms": res.wall_ms}));
+        }
+        if directed && res.cfg.directed == 2 && sampled_c < 1 {
+            sampled_c += 1;
+            ctx.sample(json!({"kind": "directed same-pool control", "events": res.events, "over_limit_steps": res.steps_over_limit}));
+        }
+    };
+
+    for k in 0..ndirected {
+        let cfg = Cfg {
+            nthreads: 2,
+            steps: 1,
+            limit: (4 << 20) + master.below(4 << 20) as usize,
+            mode: 0,
+            size_lo: 64,
+            size_hi: 64 * 1024,
+            p_release: 0,
+            w: [1, 0, 0, 0],
+            directed: if k % 5 == 4 { 2 } else { 1 },
+        };
+        let rseed = master.next();
+        let res = run_round(1_000_000 + k, rseed, &cfg, &progress);
+        absorb(&mut ctx, res);
+    }
+
+    let next = Arc::new(AtomicU64::new(0));
+    let base_seed = master.next();
+    let (tx, rx) = mpsc::channel::<RoundResult>();
+    let mut lane_handles = vec![];
+    for _ in 0..lanes {
+        let next = next.clone();
+        let tx = tx.clone();
+        let progress = progress.clone();
+        lane_handles.push(std::thread::spawn(move || loop {
+            let no = next.fetch_add(1, Ordering::SeqCst);
+            if no >= max_rounds || Instant::now() >= deadline {
+                break;
+            }
+            let mut rr = Rng::new(base_seed ^ no.wrapping_mul(0xD6E8FEB86659FD93));
+            let cfg = gen_cfg(&mut rr);
+            let rseed = rr.next();
+            let res = run_round(no, rseed, &cfg, &progress);
+            if tx.send(res).is_err() {
+                break;
+            }
+        }));
+    }
+    drop(tx);
+    for res in rx {
+        absorb(&mut ctx, res);
+    }
+    for h in lane_handles {
+        let _ = h.join();
+    }
+    progress.store(u64::MAX, Ordering::Relaxed);
+    turdb::verif::set_yield_hook(None);
+
+    ctx.count("rounds_trivial_no_overlap", trivial);
+    ctx.extra.insert("distinct_schedule_fingerprints".into(), json!(fingerprints.len()));
+    ctx.extra.insert("lanes".into(), json!(lanes));
+    ctx.extra.insert("mean_round_ms".into(), json!((round_ms_total / ctx.evaluations.max(1) as f64 * 100.0).round() / 100.0));
+    ctx.assumptions.push("schedules are sampled by real threads with injected delays, not enumerated".into());
+    ctx.assumptions.push("the oracle is evaluated only at barriers (no call in flight); nothing is demanded about which requests succeed, only that the successful ones respect the limit".into());
+    ctx.finish()
 }
